@@ -157,6 +157,15 @@ func main() {
 			})
 		}
 		add("blocked BLMOVE", func(cl *client) { cl.c.Write(cmd("BLMOVE", "emptyq2", "dst", "LEFT", "RIGHT", "0")) })
+		bigReply := cycle%3 == 0
+		if bigReply {
+			// a client that asked for more than the socket buffers hold and does not read: the emulator
+			// is in the middle of writing the reply when it is closed
+			add("reply half written", func(cl *client) {
+				cl.roundtrip(2*time.Second, "SETRANGE", "big", "33554431", "x")
+				cl.c.Write(cmd("GET", "big"))
+			})
+		}
 		time.Sleep(time.Duration(5+r.Intn(30)) * time.Millisecond)
 		// terminate
 		done := make(chan struct{})
@@ -195,6 +204,20 @@ func main() {
 					rerr = err
 					break
 				}
+			}
+			if a.name == "reply half written" {
+				// whatever was already in flight may still arrive, the complete 32 MiB value may not
+				if len(got) >= 33554432 {
+					fail(cycle, scenario, fmt.Sprintf("after Close the old %q connection still received its complete reply (%d bytes): the terminated emulator went on serving it", a.name, len(got)))
+					break
+				}
+				if ne, ok := rerr.(net.Error); ok && ne.Timeout() {
+					fail(cycle, scenario, fmt.Sprintf("after Close the old %q connection is still open 1.5 s later (%d bytes received)", a.name, len(got)))
+					break
+				}
+				stats["old_connections_checked"]++
+				a.cl.c.Close()
+				continue
 			}
 			text := string(got)
 			if strings.Contains(text, fmt.Sprintf("cycle%d", cycle)) || strings.Contains(text, "+OK") || strings.Contains(text, "+QUEUED") {
